@@ -5,7 +5,7 @@
 From Coq Require Import Ascii String.
 From Coq Require Import List ZArith NArith Bool.
 From Coq.Strings Require Import Byte.
-From OgRek Require Import Base GoStrconv Value Decoder Encoder.
+From OgRek Require Import Base GoStrconv PyQuote Value Decoder Encoder.
 Import ListNotations.
 Open Scope N_scope.
 
@@ -73,8 +73,11 @@ Section Norm.
     end.
   Definition float_fits (f : N) : bool := if (1 <=? e_proto c)%Z then f <? 2 ^ 64 else fmtg_ok f.
 
-  (* text written with a unicode opcode (binary forms; the protocol-0 V form is not covered) *)
-  Definition uni_fits (s : bytes) : bool := (1 <=? e_proto c)%Z && len32 s.
+  (* text written with a unicode opcode: binary forms, or at protocol 0 V + raw-unicode-escape, which
+     exists exactly for valid UTF-8 (otherwise Encode returns the documented error) *)
+  Definition uni_fits (s : bytes) : bool :=
+    if (1 <=? e_proto c)%Z then len32 s
+    else match pyencode_raw_unicode_escape s with Some _ => true | None => false end.
   (* text written with a Python-2 str opcode: binary forms, or at protocol 0 S + pyquote *)
   Definition bstr_fits (s : bytes) : bool := if (1 <=? e_proto c)%Z then len32 s else true.
   (* a Go string: unicode under StrictUnicode or protocol >= 3, Python-2 str otherwise *)
@@ -87,7 +90,7 @@ Section Norm.
 
   (* Bytes: BINBYTES from protocol 3; below, _codecs.encode(text, 'latin1') in binary forms *)
   Definition bytes_ok (s : bytes) : bool :=
-    if (3 <=? e_proto c)%Z then len32 s else (1 <=? e_proto c)%Z && len32 (latin1_to_utf8 s).
+    if (3 <=? e_proto c)%Z then len32 s else uni_fits (latin1_to_utf8 s).
   (* []byte: BYTEARRAY8 at protocol 5; below, bytearray(Bytes) *)
   Definition barr_ok (s : bytes) : bool :=
     if (5 <=? e_proto c)%Z then Nlen s <? 2 ^ 63 else bytes_ok s.
